@@ -36,6 +36,7 @@ type Profile struct {
 	Notifier       int
 	Gets           int  // weight of get steps
 	PostTerm       bool // allow mutators after the terminal event
+	PostTermWait   bool // ... and Bar.Wait / getters on finished bars
 	Fillers        []string
 	TicksW         int
 	NegIncr        bool
@@ -393,7 +394,11 @@ func genSteps(t *rapid.T, prof *Profile, sc *engine.Scenario) []engine.Step {
 				i := rapid.SampledFrom(term).Draw(t, "ptbar")
 				g := gb[i]
 				// in manual/none mode a mutator after abort races with the bar's shutdown
-				switch rapid.IntRange(0, 4).Draw(t, "ptop") {
+				hi := 4
+				if prof.PostTermWait {
+					hi = 7
+				}
+				switch rapid.IntRange(0, hi).Draw(t, "ptop") {
 				case 0:
 					steps = append(steps, engine.Step{Op: "abort", Bar: i, Flag: rapid.Bool().Draw(t, "ptdrop")})
 				case 1:
@@ -402,8 +407,18 @@ func genSteps(t *rapid.T, prof *Profile, sc *engine.Scenario) []engine.Step {
 					steps = append(steps, engine.Step{Op: "setcur", Bar: i, N: g.m.Cur + rapid.Int64Range(0, 30).Draw(t, "ptset")})
 				case 3:
 					steps = append(steps, engine.Step{Op: "settotal", Bar: i, N: rapid.Int64Range(-1, 30).Draw(t, "pttot"), Flag: rapid.Bool().Draw(t, "ptcomplete")})
-				default:
+				case 4:
 					steps = append(steps, engine.Step{Op: "etc", Bar: i})
+				case 5:
+					// Bar.Wait on a finished bar; a bar still parked behind an unfinished
+					// predecessor would block its own client, so those are only read
+					if sc.Bars[i].QueueAfter < 0 {
+						steps = append(steps, engine.Step{Op: "barwait", Bar: i})
+					} else {
+						steps = append(steps, engine.Step{Op: "get", Bar: i})
+					}
+				default:
+					steps = append(steps, engine.Step{Op: "get", Bar: i})
 				}
 				_ = manual
 			}})
